@@ -1,6 +1,8 @@
 package indexer
 
 import (
+	"math"
+	"math/big"
 	"time"
 
 	"github.com/tendermint/tendermint/libs/pubsub/query"
@@ -27,6 +29,61 @@ func (qr QueryRange) AnyBound() interface{} {
 	}
 
 	return qr.UpperBound
+}
+
+// ContainsInt64 reports whether the integer v lies within the range. Bounds
+// may be integers or floating point numbers, each inclusive or exclusive. ok is
+// false if the range is bounded by something else than numbers (e.g. times),
+// which cannot be compared with v.
+func (qr QueryRange) ContainsInt64(v int64) (contains bool, ok bool) {
+	if qr.LowerBound == nil && qr.UpperBound == nil {
+		return false, false
+	}
+
+	if qr.LowerBound != nil {
+		cmp, ok := compareInt64WithBound(v, qr.LowerBound)
+		if !ok {
+			return false, false
+		}
+		if cmp < 0 || (cmp == 0 && !qr.IncludeLowerBound) {
+			return false, true
+		}
+	}
+
+	if qr.UpperBound != nil {
+		cmp, ok := compareInt64WithBound(v, qr.UpperBound)
+		if !ok {
+			return false, false
+		}
+		if cmp > 0 || (cmp == 0 && !qr.IncludeUpperBound) {
+			return false, true
+		}
+	}
+
+	return true, true
+}
+
+// compareInt64WithBound compares v with a numeric query operand exactly (no
+// rounding of large integers). ok is false for any other kind of operand.
+func compareInt64WithBound(v int64, bound interface{}) (cmp int, ok bool) {
+	switch b := bound.(type) {
+	case int64:
+		switch {
+		case v < b:
+			return -1, true
+		case v > b:
+			return 1, true
+		}
+		return 0, true
+
+	case float64:
+		if math.IsNaN(b) {
+			return 0, false
+		}
+		return new(big.Float).SetInt64(v).Cmp(big.NewFloat(b)), true
+	}
+
+	return 0, false
 }
 
 // LowerBoundValue returns the value for the lower bound. If the lower bound is
@@ -134,22 +191,20 @@ func (qr *QueryRange) tightenUpperBound(bound interface{}, include bool) {
 	qr.IncludeUpperBound = include
 }
 
-// compareBounds compares two query operands of the same kind. ok is false if
-// they cannot be compared.
+// compareBounds compares two query operands: numbers (integer or floating
+// point) with numbers, times with times. ok is false if they cannot be
+// compared.
 func compareBounds(a, b interface{}) (cmp int, ok bool) {
 	switch x := a.(type) {
 	case int64:
-		if y, isInt := b.(int64); isInt {
-			switch {
-			case x < y:
-				return -1, true
-			case x > y:
-				return 1, true
-			}
-			return 0, true
-		}
+		return compareInt64WithBound(x, b)
 
 	case float64:
+		if y, isInt := b.(int64); isInt {
+			cmp, ok := compareInt64WithBound(y, x)
+			return -cmp, ok
+		}
+
 		if y, isFloat := b.(float64); isFloat {
 			switch {
 			case x < y:
